@@ -12,7 +12,12 @@ RUNS=$1; PATCH=$(readlink -f "$2"); shift 2
 mkdir -p "$SCR"
 rsync -a --delete --exclude target /repo/ "$SCR/repo/"
 # the harness as committed (edits in progress in /verif/sim do not leak into a running batch)
+if [ "${MUT_WORKTREE:-0}" = 1 ]; then
+    # the harness as it is in the working tree (uncommitted edits included)
+    mkdir -p "$SCR/export/sim" && rsync -a --delete --exclude target --exclude target-cli /verif/sim/ "$SCR/export/sim/" && cp /verif/known_findings.json "$SCR/export/"
+else
 mkdir -p "$SCR/export" && git -C /verif archive HEAD sim known_findings.json | tar -x -C "$SCR/export"
+fi
 rsync -a --delete --exclude target --exclude target-cli "$SCR/export/sim/" "$SCR/sim/"
 sed -i "s|path = \"/repo\"|path = \"$SCR/repo\"|" "$SCR/sim/Cargo.toml"
 cp "$SCR/export/known_findings.json" "$SCR/known_findings.json"
